@@ -38,6 +38,9 @@ pub struct Ctx {
     pub program: u64,
     pub syscalls: u64,
     pub sample_images: Vec<Value>,
+    /// big mode: values of 64 KiB .. 200 KB; torn prefixes are sampled, the trace is not recorded (byte strings of this
+    /// size are out of TLC's reach), the verdict is the byte comparison recovered == committed at every crash point
+    pub big: bool,
 }
 
 fn read_or_empty(p: &str) -> Vec<u8> {
@@ -93,7 +96,13 @@ impl Ctx {
             Ok(b) => *b == self.committed,
             Err(_) => false,
         };
-        if !ok && self.mismatches.len() < 50 {
+        if !ok && self.big {
+            let rl = match &rec { Ok(b) => json!(b.len()), Err(e) => json!(e) };
+            let first_diff = match &rec { Ok(b) => b.iter().zip(self.committed.iter()).position(|(x, y)| x != y), Err(_) => None };
+            self.mismatches.push(json!({"program": self.program, "hook": self.hook_no, "at": what, "torn": torn,
+                "event": ev.get("ev"), "data_len": data.len(), "wal_len": wal.len(), "committed_len": self.committed.len(),
+                "recovered_len": rl, "first_differing_offset": first_diff}));
+        } else if !ok && self.mismatches.len() < 50 {
             self.mismatches.push(json!({
                 "program": self.program, "hook": self.hook_no, "at": what, "torn": torn, "event": ev,
                 "data": data, "wal": wal, "committed": self.committed,
@@ -102,7 +111,7 @@ impl Ctx {
         } else if !ok {
             self.mismatches.push(json!({"program": self.program, "hook": self.hook_no, "at": what}));
         }
-        if new && self.sample_images.len() < 3 && !wal.is_empty() && torn {
+        if new && !self.big && self.sample_images.len() < 3 && !wal.is_empty() && torn {
             self.sample_images.push(json!({"program": self.program, "before": ev, "data_len": data.len(), "wal": wal}));
         }
         rec.ok()
@@ -110,6 +119,8 @@ impl Ctx {
 
     fn on_event(&mut self, e: &FsEvent) {
         let (ev, is_mut) = match e {
+            FsEvent::WalWrite { bytes } if self.big => (json!({"ev": "WalWrite", "len": bytes.len()}), true),
+            FsEvent::DataWrite { pos, bytes } if self.big => (json!({"ev": "DataWrite", "pos": pos, "len": bytes.len()}), true),
             FsEvent::WalWrite { bytes } => (json!({"ev": "WalWrite", "bytes": bytes}), true),
             FsEvent::WalSetLen { len } => (json!({"ev": "WalSetLen", "len": len}), true),
             FsEvent::DataWrite { pos, bytes } => (json!({"ev": "DataWrite", "pos": pos, "bytes": bytes}), true),
@@ -125,9 +136,30 @@ impl Ctx {
         let wal = read_or_empty(&wal_name(&self.data_path));
         // the clean crash point: state before this system call
         let rec = self.check_image(&data, &wal, "before", false, &ev);
-        self.trace.emit(json!({"ev": "Probe", "ok": rec.is_some(), "rec": rec.unwrap_or_default()}));
-        // torn crash points: every strict prefix of a pending write
+        if !self.big { self.trace.emit(json!({"ev": "Probe", "ok": rec.is_some(), "rec": rec.unwrap_or_default()})); }
+        // torn crash points: every strict prefix of a pending write (big mode: a sample - the ends, the middle, and
+        // both sides of every 64 KiB boundary)
+        let ks = |n: usize| -> Vec<usize> {
+            if n <= 256 { return (1..n).collect(); }
+            let mut v = vec![1, 2, 15, 16, 17, n / 2, n - 2, n - 1];
+            let mut b = 65536;
+            while b < n + 1 { for k in [b - 1, b, b + 1] { if k < n { v.push(k); } } b += 65536; }
+            v.sort(); v.dedup(); v
+        };
         match e {
+            FsEvent::WalWrite { bytes } if self.big => {
+                for k in ks(bytes.len()) {
+                    let mut w = wal.clone();
+                    w.extend_from_slice(&bytes[..k]);
+                    self.check_image(&data, &w, "torn-wal", true, &ev);
+                }
+            }
+            FsEvent::DataWrite { pos, bytes } if self.big => {
+                for k in ks(bytes.len()) {
+                    let d = patch(&data, *pos as usize, &bytes[..k]);
+                    self.check_image(&d, &wal, "torn-data", true, &ev);
+                }
+            }
             FsEvent::WalWrite { bytes } => {
                 for k in 1..bytes.len() {
                     let mut w = wal.clone();
@@ -208,7 +240,14 @@ fn call<D: Backend, R>(ctx: &Rc<RefCell<Ctx>>, p: &mut Prog<D>, name: &str, args
     }
 }
 
+thread_local! { static BIG: std::cell::Cell<bool> = const { std::cell::Cell::new(false) }; }
+const BIG_SIZES: [u64; 10] = [65_519, 65_535, 65_536, 65_537, 70_000, 100_000, 131_072, 131_073, 150_001, 200_000];
+
 fn value(rng: &mut Rng, fill: &mut u8, max: u64) -> Vec<u8> {
+    if BIG.with(|b| b.get()) && rng.chance(1, 3) {
+        *fill = if *fill >= 250 { 1 } else { *fill + 1 };
+        return vec![*fill; *rng.pick(&BIG_SIZES) as usize];
+    }
     let n = match rng.below(10) {
         0 => 0,
         1 => 8,
@@ -432,7 +471,12 @@ pub fn main(args: &Args) {
         program: 0,
         syscalls: 0,
         sample_images: vec![],
+        big: args.num("big", 0) == 1,
     }));
+    if args.num("big", 0) == 1 {
+        BIG.with(|b| b.set(true));
+        ctx.borrow_mut().trace.mute = true;
+    }
     let hc = ctx.clone();
     set_fs_hook(Some(Box::new(move |e: &FsEvent| {
         // events raised by the driver's own probes (context already borrowed) are not part of the run
